@@ -31,7 +31,7 @@ const T48_MAX: u64 = (1 << 48) - 1;
 
 // ---------------------------------------------------------------- scripts
 
-pub const N_SCRIPTS: usize = 11;
+pub const N_SCRIPTS: usize = 16;
 
 pub fn script_name(i: usize) -> &'static str {
     [
@@ -46,6 +46,14 @@ pub fn script_name(i: usize) -> &'static str {
         "big-txt",
         "notify+case-preserving",
         "records-no-question",
+        // additional sections whose record count, with the TSIG RR (and the
+        // OPT), lands on and around a multiple of 256 (ARCOUNT's low octet
+        // rolls over: RFC 8945 4.3.2 digests the message with ARCOUNT - 1)
+        "additional-254",
+        "additional-255",
+        "additional-256",
+        "additional-511",
+        "edns+additional-254",
     ][i]
 }
 
@@ -123,9 +131,26 @@ fn run_script(i: usize, w: &mut Writer) -> Result<(), String> {
             w.add_answer_rr(HintedName::new(Hint::None, &a("t.")), Type::from(t::NS), Class::IN, Ttl::from(3600), qd::rdata(&wire::wname("ns.t.")), None).map_err(e)?;
             w.add_additional_rr(HintedName::new(Hint::None, &a("ns.t.")), Type::from(t::A), Class::IN, Ttl::from(300), qd::rdata(&[192, 0, 2, 1]), None).map_err(e)?;
         }
+        11..=15 => {
+            let n = [254usize, 255, 256, 511, 254][i - 11];
+            w.set_qr(true);
+            w.add_question(&q("many.t.", t::MX)).map_err(e)?;
+            if i == 15 {
+                w.set_edns(4096).map_err(e)?;
+            }
+            for k in 0..n {
+                w.add_additional_rr(HintedName::new(Hint::Qname, &a("many.t.")), Type::from(t::A), Class::IN, Ttl::from(60), qd::rdata(&[10, 11, (k >> 8) as u8, k as u8]), None).map_err(e)?;
+            }
+        }
         _ => unreachable!(),
     }
     Ok(())
+}
+
+/// Scripts with hundreds of records: the single-octet corruption sweep visits
+/// the header, the question, the TSIG RR and every 61st octet in between.
+fn large_script(i: usize) -> bool {
+    i >= 11
 }
 
 thread_local! {
@@ -643,6 +668,9 @@ fn verify_family(ctx: &Ctx) {
             let msg = ref_sign(b, &twin, NOW0, 300, orig, 0, &[], mac_len);
             record_verify(l, "flip-base", &msg, &b.mode, &b.secret, NOW0, || json!({"sub": "flip-base", "base": vbase_json(b)}));
             for pos in 0..msg.len() {
+                if large_script(b.script) && pos >= 40 && pos + 8 < twin.len() && pos % 61 != 0 {
+                    continue;
+                }
                 for &mask in &masks {
                     let mut tm = msg.clone();
                     tm[pos] ^= mask;
